@@ -172,7 +172,7 @@ def carg(a, nodes):
     return [value(v, nodes) for v in a]
 
 
-def setup(cls, heap):
+def setup(cls, heap, fresh=False):
     H.enabled = False
     H.universe = []
     H.labels = {}
@@ -182,6 +182,9 @@ def setup(cls, heap):
     for p, (_, cs) in enumerate(heap):
         for c in cs:
             nodes[c].parent = nodes[p]
+    if fresh:
+        # the nodes are used without ever having been inspected (no attribute of them was read)
+        return nodes
     got = H.snapshot()
     if got != [[a, list(b)] for a, b in heap]:
         raise RuntimeError("harness could not build the requested forest: %r vs %r" % (got, heap))
@@ -219,7 +222,7 @@ def run_one(c, clsname=None):
     clsname = clsname or c["cls"]
     import implutil
     cls = implutil.adv(CLASSES[clsname])
-    nodes = setup(cls, c["heap"])
+    nodes = setup(cls, c["heap"], fresh=bool(c.get("fresh")))
     H.counter = 0
     H.idx_faults = frozenset(c["faults"][0])
     H.persistent = frozenset((k, n) for k, n in c["faults"][1])
